@@ -268,6 +268,17 @@ def r3(k: Kit) -> None:
                                 res = False     # final with _final None→False
                             if want and res == neg:
                                 want = False
+                        # the `final` keyword requests a second pass as
+                        # soon as it is read, wherever it stands on the line
+                        if any(nm == 'final' for nm, neg in seq) and \
+                                ('self._final', False) not in o.stores and \
+                                o.kind != 'raise':
+                            bad = bad or (
+                                f'criteria {seq} results {(r1_, r2_)}: the '
+                                '`final` keyword is not recorded '
+                                '(has_match_final() stays False, so the '
+                                'final pass never happens and the block is '
+                                'never applied)')
                         got = dict(o.stores).get('self._matching')
                         if got is not want:
                             bad = bad or f'criteria {seq} results ' \
@@ -372,6 +383,34 @@ def r4(k: Kit) -> None:
                   'expansion can run before _set_tokens', k.loc(pa, n))
 
 
+def r4_scan_once(k: Kit) -> None:
+    """Percent tokens are looked for in the configured text only."""
+    from ..flow import expr_sources, PARAM
+    rep = k.rep
+    fi = k.func('config.SSHConfig._expand_val')
+    g = k.cfg(fi)
+    rd = k.rd(fi)
+    subs = [(n, c) for n, c in k.calls_named(fi, 'sub')
+            if dotted(c.func.value) == '_token_pattern']
+    rep.check(len(subs) == 1, 'C18.R4', key(fi, 'token expansion site'),
+              'one percent-token substitution', 'percent-token substitution '
+              'site not found', fi.loc(fi.node))
+    for n, c in subs:
+        arg = c.args[1] if len(c.args) > 1 else None
+        leaves, free = expr_sources(g, rd, n.id, arg) if arg is not None \
+            else ([], {'?'})
+        okv = not leaves and free == {'value'}
+        rep.check(okv, 'C18.R4', key(fi, 'tokens scanned in the raw value'),
+                  'the text scanned for % tokens is the option value as '
+                  'written in the file',
+                  'percent tokens are looked for in text that already went '
+                  'through another substitution (environment expansion): '
+                  'the content of an environment variable is re-scanned, so '
+                  '`%20` in ${VAR} is an error and `%u` / `%h` in it are '
+                  'expanded although the file never wrote them',
+                  k.loc(fi, n))
+
+
 def r3_file_start(k: Kit) -> None:
     """Each configuration file starts outside any Host/Match block."""
     rep = k.rep
@@ -409,4 +448,5 @@ def run(idx, rep, tier):
     r2(k)
     r3(k)
     r3_file_start(k)
+    r4_scan_once(k)
     r4(k)
